@@ -9,8 +9,10 @@ CONSTANTS
   DEV_StarEmptySeg = FALSE
   DEV_IgnoreRelToSrc = FALSE
   DEV_NestedDstFsPath = FALSE
+  DEV_LinkValidatedOnDisk = FALSE
   DEV_DerefSpecial = FALSE
   DEV_PrepOwnPathDirRemoved = FALSE
   DEV_PrepPruneNonDominating = FALSE
   DEV_PrepAbsLinkAccepted = FALSE
+  DEV_PrepReenterAccepted = FALSE
 CHECK_DEADLOCK FALSE
